@@ -31,10 +31,12 @@ DESIGN_BUGS = {"thr2": ["InvCoordMin", "InvDescent"], "ascent": ["InvCoordMin", 
                "gapnol1": ["InvGap"]}
 SLACK = {"SlW": 60, "SlR": 120, "SlG": 600}
 DEV = "gap_check_one_sweep_early"
+if os.environ.get("VERIF_X13_SLACK") and os.environ.get("VERIF_REPO", "/repo") != "/repo":      # development knob (slack calibration)
+    SLACK = dict(zip(["SlW", "SlR", "SlG"], map(int, os.environ["VERIF_X13_SLACK"].split(","))))
 
 TIER = {
-    "quick": dict(mc=dict(MaxN=3, MaxP=2, MaxIt=2, Thin=3), bug=dict(MaxN=3, MaxP=2, MaxIt=2, Thin=5),
-                  gen=dict(MaxN=3, MaxP=2, MaxIt=2, TinyThin=3, RunThin=200)),
+    "quick": dict(mc=dict(MaxN=3, MaxP=2, MaxIt=2, Thin=5), bug=dict(MaxN=3, MaxP=2, MaxIt=2, Thin=9),
+                  gen=dict(MaxN=3, MaxP=2, MaxIt=2, TinyThin=5, RunThin=300)),
     "thorough": dict(mc=dict(MaxN=3, MaxP=2, MaxIt=3, Thin=1), bug=dict(MaxN=3, MaxP=2, MaxIt=2, Thin=2),
                      gen=dict(MaxN=3, MaxP=2, MaxIt=3, TinyThin=1, RunThin=4)),
 }
@@ -261,6 +263,39 @@ def random_cases(ctx, count):
     return out
 
 
+def in_range(case):
+    """Input selection only (never a verdict): a float simulation of the coded iteration keeps the cases whose magnitudes stay
+    inside the 31-bit fixed-point range of CdStepOps (|w| <= 12, |corr| <= 400, w.w <= 250, |y|^2 <= 250)."""
+    inp = case["inp"]
+    x, y = inp["x"], [float(v) for v in inp["y"]]
+    n, p = len(x), len(x[0])
+    if inp["icpt"]:
+        m = sum(y) / n
+        y = [v - m for v in y]
+    if sum(v * v for v in y) > 250:
+        return False
+    pen, l1r = inp["pen"][0] / inp["pen"][1], inp["l1r"][0] / inp["l1r"][1]
+    l1, l2 = n * pen * l1r, n * pen * (1 - l1r)
+    w, r = [0.0] * p, list(y)
+    nrm = [sum(x[i][j] ** 2 for i in range(n)) for j in range(p)]
+    for _ in range(min(inp["maxit"], 80)):
+        for j in range(p):
+            if nrm[j] == 0:
+                continue
+            corr = sum(x[i][j] * r[i] for i in range(n)) + nrm[j] * w[j]
+            nw = (abs(corr) - l1 if abs(corr) > l1 else 0.0) * (1 if corr > 0 else -1) / (nrm[j] + l2)
+            r = [r[i] + x[i][j] * (w[j] - nw) for i in range(n)]
+            w[j] = nw
+            if abs(corr) > 400 or abs(nw) > 12 or max(abs(v) for v in r) > 25:
+                return False
+        if inp["icpt"]:
+            m = sum(r) / n
+            r = [v - m for v in r]
+        if sum(v * v for v in w) > 250:
+            return False
+    return True
+
+
 def prepare(case, hook):
     case["inp"]["hook"] = 1 if hook else 0
     return case
@@ -281,6 +316,9 @@ def run(ctx):
     ctx.extra["cases_enumerated_by_tlc"] = len(cases)
     if not ctx.quick:
         cases += random_cases(ctx, 1500)
+    n0 = len(cases)
+    cases = [c for c in cases if in_range(c)]
+    ctx.extra["cases_dropped_outside_fixed_point_range"] = n0 - len(cases)
     for c in cases:
         prepare(c, hook)
     vlib.number(cases)
